@@ -104,6 +104,12 @@ def handle (j : Json) : Except String Json := do
       -- validate keeps x; py2sql writes quantize x; sql2py quantizes what it reads again
       pure (Json.mkObj [("validated", jDec x), ("stored", jDec (quantize sc x)), ("loaded", jDec (quantize sc (quantize sc x)))])
     | _ => throw s!"store: unknown type {ty}"
+  | "affinity" =>
+    let decl ← argStr j "decl"
+    let cps ← natList (← j.getObjVal? "s")
+    let a := affinityOf decl.toList
+    let name := match a with | .integer => "integer" | .text => "text" | .blob => "blob" | .real => "real" | .numeric => "numeric"
+    pure (Json.mkObj [("aff", .str name), ("stays_text", .bool (textStaysText a (cps.map Char.ofNat)))])
   | "td2str" =>
     let t : TDelta := ⟨← argInt j "days", ← argNat j "seconds", ← argNat j "us"⟩
     let txt := timedelta2str t
